@@ -238,9 +238,10 @@ def witness_strings(toks, stats, n, seed):
         parts = []
         for j in range(rnd.randint(2, 5)):
             v = rnd.choice(names + ["String", "String", "Comment", "Newline", "Identifier"])
-            x = z3.String("w"); s = z3.Solver(); s.set("timeout", 5000); s.add(z3.InRe(x, L[v]), z3.Length(x) <= 6)
+            x = z3.String("w"); s = z3.Solver(); s.set("timeout", 5000); s.add(z3.InRe(x, L[v]), z3.Length(x) <= (6 if v != "String" else 9))
             if v == "String":
-                s.add(z3.Contains(x, z3.StringVal(rnd.choice(["\n", "ä", "€", "a\nb", "\\", " "]))))
+                s.add(z3.Contains(x, z3.StringVal(rnd.choice(["\n", "ä", "€", "a\nb", "\\", " ", "\n\n", "a\nbc\nd", "\nä\n"]))))
+                s.add(z3.Length(x) <= 9)
             if v == "Comment": s.add(z3.Contains(x, z3.StringVal(rnd.choice(["ö", " x", "/"]))))
             if v == "Identifier": s.add(z3.Length(x) >= rnd.randint(1, 3))
             if stats.check(s) != z3.sat: continue
@@ -250,7 +251,7 @@ def witness_strings(toks, stats, n, seed):
         text = "".join(parts)
         text = re.sub(r"\\u\{([0-9a-fA-F]+)\}", lambda mm: chr(int(mm.group(1), 16)), text)
         out.append(text)
-    out += ['"\n"a', 'a :: "x\ny"\nb', "// ö\nabc de\n", "ab\r\ncd\r\n", 'x := "ä€" + y', "1.5.e3 ..", "<<<<<<< >>>>>>>", "a<=>b<!>c->d", "fn->pu'x"]
+    out += ['x "a\nbb\nccc" y z\n', '"\n\n\n" q r', 'k "ä\n\nö€\n" + 1\n', '"unterminated\nmore\nlines x', 'a\n"b\nc\nd\ne"f g', '"\n"a', 'a :: "x\ny"\nb', "// ö\nabc de\n", "ab\r\ncd\r\n", 'x := "ä€" + y', "1.5.e3 ..", "<<<<<<< >>>>>>>", "a<=>b<!>c->d", "fn->pu'x"]
     return out
 
 
